@@ -19,6 +19,14 @@ def _rebind(orig, wrapper):
     return done
 
 
+def _bind(fn, a, k):
+    """arguments by parameter name, whatever the call style (recording must not depend on positional order)"""
+    import inspect
+    b = inspect.signature(fn).bind(*a, **k)
+    b.apply_defaults()
+    return b.arguments
+
+
 @contextlib.contextmanager
 def record(which, cap=4000):
     """which: subset of {'insert_tree', 'expand_tree', 'struct_pred', 'is_valid', 'replace_path'}; yields a dict of lists"""
@@ -31,12 +39,13 @@ def record(which, cap=4000):
     if "insert_tree" in which:
         orig = EH.insert_tree
 
-        def insert_tree(grammar, tree, in_tree, graph=None, max_num_solutions=50, methods=7):
-            res = orig(grammar, tree, in_tree, graph=graph, max_num_solutions=max_num_solutions, methods=methods)
+        def insert_tree(*a, **k):
+            res = orig(*a, **k)
             if len(log["insert_tree"]) < cap:
                 try:
+                    b = _bind(orig, a, k)
                     res = list(res)
-                    log["insert_tree"].append((tree, in_tree, res, methods, max_num_solutions))
+                    log["insert_tree"].append((b["tree"], b["in_tree"], res, b.get("methods", 7), b.get("max_num_solutions", 50)))
                 except Exception:
                     pass
             return res
@@ -48,8 +57,8 @@ def record(which, cap=4000):
                 o = cls.__dict__["expand_tree"]
 
                 def mk(o):
-                    def expand_tree(self, tree):
-                        out = o(self, tree)
+                    def expand_tree(self, tree, *a, **k):
+                        out = o(self, tree, *a, **k)
                         if len(log["expand_tree"]) < cap:
                             log["expand_tree"].append((tree, out))
                         return out
@@ -59,8 +68,8 @@ def record(which, cap=4000):
     if "struct_pred" in which:
         o = L.StructuralPredicate.__dict__["evaluate"]
 
-        def evaluate(self, context_tree, *instantiations):
-            r = o(self, context_tree, *instantiations)
+        def evaluate(self, context_tree, *instantiations, **k):
+            r = o(self, context_tree, *instantiations, **k)
             if len(log["struct_pred"]) < cap:
                 log["struct_pred"].append((self.name, context_tree, instantiations, r))
             return r
@@ -68,11 +77,11 @@ def record(which, cap=4000):
         undo.append((L.StructuralPredicate, "evaluate", o))
         o2 = L.StructuralPredicateFormula.__dict__["evaluate"]
 
-        def evaluate2(self, context_tree):
-            r = o2(self, context_tree)
+        def evaluate2(self, context_tree, *a, **k):
+            r = o2(self, context_tree, *a, **k)
             if len(log["struct_pred"]) < cap:
                 try:
-                    paths = tuple(a if isinstance(a, str) else context_tree.find_node(a) for a in self.args)
+                    paths = tuple(x if isinstance(x, str) else context_tree.find_node(x) for x in self.args)
                     log["struct_pred"].append((self.predicate.name, context_tree, paths, r))
                 except Exception:
                     pass
@@ -82,8 +91,8 @@ def record(which, cap=4000):
     if "is_valid" in which:
         orig = ZH.is_valid
 
-        def is_valid(formula, timeout=500):
-            r = orig(formula, timeout)
+        def is_valid(formula, *a, **k):
+            r = orig(formula, *a, **k)
             if len(log["is_valid"]) < cap:
                 try:
                     log["is_valid"].append((formula.sexpr(), "T" if r.is_true() else "F" if r.is_false() else "U"))
@@ -96,13 +105,16 @@ def record(which, cap=4000):
         import isla.parser as PS
         o = PS.EarleyParser.__dict__["parse"]
 
-        def parse(self, text):
+        def parse(self, text, *a, **k):
             rec = None
-            if len(log["parse"]) < cap:
-                rec = {"grammar": self._grammar, "start": self._start_symbol, "text": text, "trees": [], "exc": None, "advanced": False}
-                log["parse"].append(rec)
             try:
-                for t in o(self, text):
+                if len(log["parse"]) < cap:
+                    rec = {"grammar": self._grammar, "start": self._start_symbol, "text": text, "trees": [], "exc": None, "advanced": False}
+                    log["parse"].append(rec)
+            except Exception:
+                rec = None
+            try:
+                for t in o(self, text, *a, **k):
                     if rec is not None:
                         rec["advanced"] = True
                         if len(rec["trees"]) < 10:
@@ -121,18 +133,25 @@ def record(which, cap=4000):
         o_sub = DT.__dict__["substitute"]
         calls = [0]
 
-        def replace_path(self, path, replacement_tree, retain_id=False):
-            out = o_rp(self, path, replacement_tree, retain_id)
+        def replace_path(self, *a, **k):
+            out = o_rp(self, *a, **k)
             calls[0] += 1
             if len(log["tree_ops"]) < cap and calls[0] % 7 == 0:
-                log["tree_ops"].append(("replace_path", self, (tuple(path), replacement_tree, retain_id), out))
+                try:
+                    b = _bind(o_rp, (self,) + a, k)
+                    log["tree_ops"].append(("replace_path", self, (tuple(b["path"]), b["replacement_tree"], bool(b.get("retain_id", False))), out))
+                except Exception:
+                    pass
             return out
 
-        def substitute(self, subst_map):
-            out = o_sub(self, subst_map)
+        def substitute(self, subst_map, *a, **k):
+            out = o_sub(self, subst_map, *a, **k)
             calls[0] += 1
             if len(log["tree_ops"]) < cap and calls[0] % 7 == 0:
-                log["tree_ops"].append(("substitute", self, dict(subst_map), out))
+                try:
+                    log["tree_ops"].append(("substitute", self, dict(subst_map), out))
+                except Exception:
+                    pass
             return out
         DT.replace_path = replace_path
         DT.substitute = substitute
@@ -141,10 +160,10 @@ def record(which, cap=4000):
     if "sem_pred" in which:
         o_sp = L.SemanticPredicate.__dict__["evaluate"]
 
-        def sp_evaluate(self, graph, *instantiations, negate=False):
-            r = o_sp(self, graph, *instantiations, negate=negate)
+        def sp_evaluate(self, graph, *instantiations, **k):
+            r = o_sp(self, graph, *instantiations, **k)
             if len(log["sem_pred"]) < cap:
-                log["sem_pred"].append((self.name, graph, instantiations, negate, r))
+                log["sem_pred"].append((self.name, graph, instantiations, bool(k.get("negate", False)), r))
             return r
         L.SemanticPredicate.evaluate = sp_evaluate
         undo.append((L.SemanticPredicate, "evaluate", o_sp))
